@@ -180,9 +180,16 @@ class Evaluator:
         if missing:
             self.errors = {}
             self._print_batch(ctx, 'pi', [[i] for i in missing])
-        if failed:      # isolate: one file per goal of the failing files
+        if failed:      # isolate: first one file per real case (group) of the failing files, then one per goal
+            by = {}
+            for i in failed:
+                by.setdefault(self.ggroup[i], []).append(i)
             self.gerr = {}
-            still = self._goal_batch(ctx, 'gi', [[i] for i in failed])
+            failed2 = self._goal_batch(ctx, 'gg', list(by.values()))
+            still = []
+            if failed2:
+                self.gerr = {}
+                still = self._goal_batch(ctx, 'gi', [[i] for i in failed2[:400]])
             # diagnostics for the goals that really fail: print both sides (bounded)
             for i in still[:6]:
                 for side in self.goals[i]:
